@@ -43,7 +43,7 @@ def run(chk):
     # a terminal that refuses everything with the same code, and one that refuses but tolerates end-of-day with 'receiver not ready':
     # every operation must give up
     def ab(code, n=60):
-        return [{"script": [[0x06, 0x1e, 0x01, code]]} for _ in range(n)]
+        return [{"script": [[0x06, 0x1e, 0x01, code]], "repeat": True}]
     for code in (0x6a, 0xa0, 0xb4, 0x6c, 0xfc, 0x00, 0xff, 0x83):
         for calls in ([{"op": "begin", "token": [97]}, {"op": "read_card"}], [{"op": "configure"}], [{"op": "new"}, {"op": "begin", "token": [97]}]):
             extremes.append({"config": {"terminal_id": "11112222"}, "calls": calls, "plan": {"exchanges": [], "default": {"o": "abort", "code": code}}})
